@@ -9,7 +9,7 @@ from contracts.decoder import cpus
 
 def work(a):
     prop, mn, seed = a
-    n, fails, samples, distinct = rt._run(prop, mn, "thorough", seed)
+    n, fails, samples, distinct = rt._run(prop, mn, __import__("os").environ.get("COLLECT_TIER", "thorough"), seed)
     out = {}
     for inp, detail in fails:
         out.setdefault((mn, inp["sig"]), (inp, detail))
